@@ -53,6 +53,8 @@ pub struct Net<P: Protocol> {
     /// with `two_planes`: the nodes' own (advertised) addresses are NOT routable (like the default wildcard listen address);
     /// node i is reachable only at `plane0_addr(i)` and `plane1_addr(i)`
     pub real_unroutable: bool,
+    /// partial reachability: datagrams of node `.0` towards address `.1` are lost (another network, a filtered port)
+    pub blackhole: Vec<(usize, SocketAddr)>,
     /// counter that makes the salt of every call into a node different (same leading byte, so the order between nodes stays)
     pub salt_counter: std::cell::Cell<u16>,
 }
@@ -100,6 +102,7 @@ impl<P: Protocol> Net<P> {
             conntrack: vec![],
             two_planes: false,
             real_unroutable: false,
+            blackhole: vec![],
             salt_counter: std::cell::Cell::new(0),
         }
     }
@@ -180,6 +183,14 @@ impl<P: Protocol> Net<P> {
 
     /// Hands one datagram to its destination (if it is a node and its NAT lets it in). Returns the node index.
     pub fn hand_over(&mut self, w: Wire) -> Option<usize> {
+        if !self.blackhole.is_empty() {
+            if let Some(sender) = self.addrs.iter().position(|a| *a == w.from) {
+                if self.blackhole.iter().any(|(n, d)| *n == sender && *d == w.to) {
+                    self.lost_to_nowhere += 1;
+                    return None;
+                }
+            }
+        }
         let i = match self.node_index(&w.to) {
             Some(i) => i,
             None => {
